@@ -84,7 +84,8 @@ def _run_fold(*a):
         return _fold(*a)
     from crosshair.core import realize
     from crosshair.tracers import NoTracing
-    b = [realize(x) for x in a]
+    from selpick import pick_all
+    b = pick_all(a)
     with NoTracing():
         return _fold(*b)
 
@@ -240,7 +241,8 @@ def _run_objects(*a):
         return _objects(*a)
     from crosshair.core import realize
     from crosshair.tracers import NoTracing
-    b = [realize(x) for x in a]
+    from selpick import pick_all
+    b = pick_all(a)
     with NoTracing():
         return _objects(*b)
 
